@@ -259,6 +259,19 @@ def feature_functions(full: bool):
                         ('nested', 'if a < 5:\n\tfor i in range(2):\n\t\ta = 9\nreturn a'), ('try', 'try:\n\ta = 4\nexcept Exception as e:\n\ta = 5\nreturn a'),
                         ('clamp', 'lo = 0\nhi = 3\nif a < lo:\n\ta = lo\nif a > hi:\n\ta = hi\nreturn a')]:
         add(f'param-reassign:{where}', body)
+    # the history of one local name: assigned in an earlier nested block, at function level, in a later nested block (every order
+    # of the three places; no assignment after the first may become a new declaration)
+    places = {'early-for': 'for i in range(2):\n\t{v} = i + 10', 'early-if': 'if a > 0:\n\t{v} = 20', 'level': '{v} = 30',
+              'late-for': 'for j in range(3):\n\tif j % 2 == 0:\n\t\t{v} = j + 40', 'late-while': 'k = 0\nwhile k < 2:\n\t{v} = k * 3 + 50\n\tk += 1', 'late-if': 'if a < 3:\n\t{v} = 60'}
+    for first in ('early-for', 'early-if', 'level'):
+        for second in ('level', 'early-if'):
+            for third in ('late-for', 'late-while', 'late-if', 'level'):
+                if first == second:
+                    continue
+                body = '\n'.join(places[x].format(v='found') for x in (first, second, third)) + '\nreturn found'
+                if first != 'level' and second != 'level':
+                    body = 'found = 0\n' + body   # keep the programs inside the subset (no use of a name bound only in branches)
+                add(f'name-history:{first},{second},{third}', body)
     # mixed int/float chains through an inferred declaration (the declared type decides whether the value is truncated)
     import itertools as _it
     for ops in _it.product(['+', '-', '*'], repeat=2):
